@@ -102,3 +102,107 @@ def rslice(rf, sel, newdims=('POINTS',)):
                     mask = np.take(mask, np.array(idx[d], dtype=int), axis=ax)
             out.vars[k] = RVar(v.dims, data.copy(), mask.copy(), v.attrs, v.fill, v.masked)
     return out
+
+
+# --------------------------------------------------------------------------
+# apply-along-dimension
+
+REDUCERS = ('mean', 'sum', 'min', 'max', 'std', 'var', 'prod')
+
+FUNCS = OrderedDict([
+    ('identity', lambda x: x),
+    ('diff', lambda x: np.diff(x)),
+    ('sub2', lambda x: x[::2]),
+    ('conv2', lambda x: np.convolve(x, [.5, .5], 'valid')),
+    ('cumsum', lambda x: x.cumsum()),
+    ('first', lambda x: x[:1]),
+])
+
+
+def _lanes_apply(f, data, mask, ax, masked):
+    """apply 1-D function f to every lane of (data, mask) along axis ax"""
+    data = np.moveaxis(data, ax, -1)
+    mask = np.moveaxis(mask, ax, -1)
+    lead = data.shape[:-1]
+    if 0 in lead:
+        # numpy.apply_along_axis itself is undefined when another axis is
+        # empty ("Cannot apply_along_axis when any iteration dimensions are 0")
+        raise OutOfDomain('1-D function applied while another axis has length zero')
+    outs_d, outs_m = [], []
+    olen, odt = None, None
+    for ii in np.ndindex(*lead):
+        lane = np.ma.MaskedArray(data[ii].copy(), mask=mask[ii].copy()) if masked else data[ii].copy()
+        r = f(lane)
+        rd = np.array(np.ma.getdata(r))
+        rm = np.array(np.ma.getmaskarray(r), dtype=bool).reshape(rd.shape)
+        if rd.ndim != 1:
+            raise OutOfDomain('function does not return 1-D')
+        if olen is None:
+            olen, odt = rd.shape[0], rd.dtype
+        elif rd.shape[0] != olen:
+            raise OutOfDomain('output length varies')
+        outs_d.append(rd)
+        outs_m.append(rm)
+    if olen is None:   # no lanes at all (a zero-length leading axis)
+        r = f(np.zeros(data.shape[-1], data.dtype))
+        olen, odt = np.asarray(r).shape[0], np.asarray(r).dtype
+    nd = np.array(outs_d, dtype=odt).reshape(lead + (olen,))
+    nm = np.array(outs_m, dtype=bool).reshape(lead + (olen,))
+    return np.moveaxis(nd, -1, ax), np.moveaxis(nm, -1, ax)
+
+
+def apply1(data, mask, ax, fn, masked):
+    """one function along one axis, axis retained.  fn = ('r', name) | ('f', key)"""
+    if fn[0] == 'r':
+        if data.shape[ax] == 0 and fn[1] in ('min', 'max'):
+            raise OutOfDomain('min/max over zero-length axis')
+        if data.dtype.kind not in 'fiub':
+            raise OutOfDomain('non-numeric variable')
+        if masked and mask.any():
+            r = getattr(np.ma.MaskedArray(data, mask=mask), fn[1])(axis=ax, keepdims=True)
+        else:
+            r = getattr(np.asarray(data), fn[1])(axis=ax, keepdims=True)
+        rd = np.array(np.ma.getdata(r))
+        rm = np.array(np.ma.getmaskarray(r), dtype=bool).reshape(rd.shape)
+        return rd, rm
+    if data.dtype.kind not in 'fiub':
+        raise OutOfDomain('non-numeric variable')
+    return _lanes_apply(FUNCS[fn[1]], data, mask, ax, masked and bool(mask.any()))
+
+
+def rapply_orders(rf, dimfuncs):
+    """All results obtainable by applying the per-dimension functions in any
+    order (the statement does not fix an order).  Returns list of RFile."""
+    import itertools
+    for d in dimfuncs:
+        if d not in rf.dims:
+            raise OutOfDomain('unknown dimension ' + d)
+        if rf.dims[d][0] < 1:
+            raise OutOfDomain('zero-length dimension')
+    outs = []
+    seen = set()
+    for perm in itertools.permutations(list(dimfuncs)):
+        out = RFile()
+        out.cls = rf.cls
+        out.attrs = OrderedDict(rf.attrs)
+        out.coords = set(rf.coords)
+        newlen = {}
+        for k, v in rf.vars.items():
+            data, mask = v.data, v.mask
+            for d in perm:
+                if d in v.dims:
+                    ax = v.dims.index(d)
+                    data, mask = apply1(data, mask, ax, dimfuncs[d], v.masked)
+            out.vars[k] = RVar(v.dims, data, mask, v.attrs, v.fill, v.masked)
+        for d, (n, u) in rf.dims.items():
+            if d in dimfuncs:
+                # output length of the function on a length-n vector
+                dd, _ = apply1(np.arange(n, dtype='d'), np.zeros(n, bool), 0, dimfuncs[d], False)
+                n = dd.shape[0]
+            out.dims[d] = [n, u]
+        from .rfile import canon
+        c = canon(out)
+        if c not in seen:
+            seen.add(c)
+            outs.append(out)
+    return outs
